@@ -390,21 +390,33 @@ Lemma ont_init_two_entries_order_dependent :
   exists o1 o2 : list (N * N), Permutation o1 o2 /\ ont_init_notifications o1 <> ont_init_notifications o2.
 Proof. exists [(1, 10); (2, 20)], [(2, 20); (1, 10)]. split; [apply perm_swap|vm_compute; discriminate]. Qed.
 
-(** * A7 (finding): the ontfs error event payload follows the map order *)
-Lemma ontfs_errors_to_string_order_dependent :
+(** * A7: the ontfs error event payload (sorted writer, 859ea035) is order-free for every map *)
+Lemma fold_left_ext_in {A B : Type} (f g : A -> B -> A) (l : list B) :
+  (forall a b, In b l -> f a b = g a b) -> forall a, fold_left f l a = fold_left g l a.
+Proof.
+  induction l as [|x r IH]; intros H a; simpl; [reflexivity|].
+  rewrite (H a x (or_introl eq_refl)). apply IH. intros a' b Hb. apply H. right. exact Hb.
+Qed.
+
+Lemma ontfs_errors_to_string_order_free (o1 o2 : list (bytes * bytes)) :
+  Permutation o1 o2 -> NoDup (map fst o1) -> ontfs_errors_to_string o1 = ontfs_errors_to_string o2.
+Proof.
+  intros HP Hnd. unfold ontfs_errors_to_string.
+  rewrite <- (sorted_keys_order_free o1 o2 HP). rewrite <- (Permutation_length HP).
+  apply fold_left_ext_in. intros buf k _. unfold ontfs_lookup.
+  rewrite (am_get_perm bytes bytes bytes_eqb bytes_eqb_eq o1 o2 HP Hnd k). reflexivity.
+Qed.
+
+(** the writer before the repair followed the map order (why the sort is there) *)
+Lemma ontfs_errors_to_string_unsorted_order_dependent :
   exists o1 o2 : list (bytes * bytes), NoDup (map fst o1) /\ Permutation o1 o2 /\
-    ontfs_errors_to_string o1 <> ontfs_errors_to_string o2.
+    ontfs_errors_to_string_unsorted o1 <> ontfs_errors_to_string_unsorted o2.
 Proof.
   exists [([1], [101]); ([2], [102])], [([2], [102]); ([1], [101])]. split; [|split].
   - repeat constructor; simpl; intuition discriminate.
   - apply perm_swap.
   - vm_compute. discriminate.
 Qed.
-
-(** outside the finding class (at most one recorded error) the payload is order-free *)
-Lemma ontfs_errors_to_string_small o1 o2 :
-  Permutation o1 o2 -> (length o1 <= 1)%nat -> ontfs_errors_to_string o1 = ontfs_errors_to_string o2.
-Proof. intros HP Hl. rewrite (perm_singleton o1 o2 HP Hl). reflexivity. Qed.
 
 (** * A8 (finding F4): the detector's map branch inspects the first visited entry only *)
 Lemma detect_map_first_order_dependent :
